@@ -57,6 +57,9 @@ func elasticPipelinedScenarios(tier string) []clustermc.Scenario {
 		{"pend-elastic2min1-f5-qa", world.WL{Queue: "qa", MinMember: 1, Pods: pods(2, shF5, "", "")}},
 		{"pend-elastic3min1-f5-qa", world.WL{Queue: "qa", MinMember: 1, Pods: pods(3, shF5, "", "")}},
 		{"pend-elastic2min1-g1-qa", world.WL{Queue: "qa", MinMember: 1, Pods: pods(2, shG1, "", "")}},
+		// multi-device fractions (2 x 0.5, 3 x 0.3): portion x devices is NOT the number of devices
+		{"pend-mf2-qa", world.WL{Queue: "qa", Pods: pods(1, shMF2, "", "")}},
+		{"pend-mf3x03-qa", world.WL{Queue: "qa", Pods: pods(1, world.Shape{CPUm: 500, Fraction: "0.3", NumDev: "3"}, "", "")}},
 		{"run-f5+term-f5-samegroup-qb", world.WL{Queue: "qb", MinMember: 1, Pods: []world.PodSpec{
 			{Shape: shF5, State: world.StRunning, Node: "n1", Groups: []string{"A"}}, {Shape: shF5, State: world.StTerminating, Node: "n1", Groups: []string{"A"}}}}},
 		{"term-f5-qb", world.WL{Queue: "qb", Pods: pods(1, shF5, world.StTerminating, "n1")}},
@@ -66,6 +69,7 @@ func elasticPipelinedScenarios(tier string) []clustermc.Scenario {
 	lay := []nodeLayout{
 		{"2n-1+1gpu", []world.NodeOpt{{Name: "n1", CPU: "4", Mem: "8Gi", GPUs: 1, GPUMemMiB: 40000}, {Name: "n2", CPU: "4", Mem: "8Gi", GPUs: 1, GPUMemMiB: 40000}}},
 		{"2n-2+1gpu", []world.NodeOpt{{Name: "n1", CPU: "4", Mem: "8Gi", GPUs: 2, GPUMemMiB: 40000}, {Name: "n2", CPU: "4", Mem: "8Gi", GPUs: 1, GPUMemMiB: 40000}}},
+		{"2n-3+1gpu", []world.NodeOpt{{Name: "n1", CPU: "4", Mem: "8Gi", GPUs: 3, GPUMemMiB: 40000}, {Name: "n2", CPU: "4", Mem: "8Gi", GPUs: 1, GPUMemMiB: 40000}}},
 	}
 	cfgs := []schedrun.Config{{}, {Placement: "spread", NoConsolidation: true}}
 	kMax := 3
@@ -73,8 +77,8 @@ func elasticPipelinedScenarios(tier string) []clustermc.Scenario {
 		kMax = 4
 	}
 	var out []clustermc.Scenario
-	for _, sc := range wlScenariosRange(menu, lay, progressQueues()[:1], cfgs, 2, kMax) {
-		if strings.Contains(sc.Name, "pend-elastic") {
+	for _, sc := range wlScenariosRange(menu, lay, progressQueues()[:1], cfgs, 1, kMax) {
+		if strings.Contains(sc.Name, "pend-elastic") || strings.Contains(sc.Name, "pend-mf") {
 			sc.Name = "elastic-pipelined:" + sc.Name
 			out = append(out, sc)
 		}
